@@ -22,7 +22,12 @@ ASSUMPTIONS = [
 ]
 
 
+OUTSIDE = ("floatx", "partial")   # families of gen.family beyond this property's quantifier ("NaN only as a wholly-missing frame")
+
+
 def check_one(sp, opts, acc, tag=""):
+    if tag.split("/")[0] in OUTSIDE:
+        return "outside-quantifier (not judged)"
     t, fmt = sp["type"], sp["format"]
     try:
         obj = specs.build(sp, **opts)
